@@ -1,4 +1,5 @@
 import FalconModel.AsyncReader
+import FalconModel.AsyncReaderIter
 open ARd Rd
 
 def hexD (n : Nat) : Char := if n < 10 then Char.ofNat (48+n) else Char.ofNat (87+n)
@@ -26,6 +27,9 @@ def step' (r : AR) (line : String) : AR × String :=
   | ["ru", d, n, c] => let (x, r, _) := ARd.readUntil r (fromHex d) (optInt n) (c == "1"); (r, showRes x ++ st r)
   | ["pu", d, c] => let (x, r) := ARd.pipeUntil r (fromHex d) (c == "1"); (r, showRes x ++ st r)
   | ["pipe"] => let (x, r) := ARd.pipe r; (r, showRes x ++ st r)
+  | ["iter", k] =>
+    let (cs, r) := ARi.iterate r (max k.toNat! 1)
+    (r, "chunks" ++ String.join (cs.map fun c => " " ++ (if c.isEmpty then "-" else toHex c)) ++ st r)
   | ["exhaust"] => let (x, r) := ARd.pipe r; (r, (match x with | .ok _ => "unit" | e => showRes e) ++ st r)
   | _ => (r, "bad-op")
 
